@@ -23,7 +23,7 @@ from vlib import InfraError, REPO
 
 LEVEL = "model_checking"
 
-ACTIONS = ("Write", "Persist", "Flush", "Crash", "Restart", "RecoverReplay", "RecoverDelete", "RecoverDone", "Finish")
+ACTIONS = ("Write", "Persist", "Flush", "Crash", "Restart", "RecoverReplay", "RecoverReplayFail", "RecoverKeep", "RecoverDelete", "RecoverDone", "Finish")
 CANON = ["w", "p", "x", "s", "r", "d", "R", "F"]
 
 
@@ -83,11 +83,14 @@ def run(ctx):
         # crashes (all of them over the seeds 1 2 3 7 42 and in the thorough tier) + a few two-write ones
         def ncr(s):
             return sum(s["sched"].count(x) for x in ("x", "xa", "xb"))
-        one = [s for s in sched if len(s["writes"]) == 1 and (ncr(s) == 2 or any(x in s["sched"] for x in ("xa", "xb")))]
+        one = [s for s in sched if len(s["writes"]) == 1 and (ncr(s) == 2 or any(x in s["sched"] for x in ("xa", "xb", "rf")))]
         two = [s for s in sched if len(s["writes"]) > 1 and any(x in s["sched"] for x in ("xa", "xb"))]
         # always: crash after persist, full recovery (file deleted), crash before any flush, restart
         fixed2 = [s for s in one if s["sched"][:8] == ["w", "p", "x", "s", "r", "d", "R", "x"]]
         chosen += fixed2
+        # always: a transient replay-callback failure (file must be kept), then crash, restart, retry
+        faulty = [s for s in one if s["sched"] == ["w", "p", "x", "s", "rf", "k", "R", "x", "s", "r", "d", "R", "F"]]
+        chosen += faulty
         chosen += [s for s in rnd.sample(one, min(16, len(one))) if s not in fixed2]
         chosen += rnd.sample(two, min(8, len(two)))
     else:
